@@ -26,7 +26,7 @@ def scratch_root():
     if _scratch_root is None and os.environ.get("VERIF_SCRATCH_ROOT"):
         _scratch_root = os.environ["VERIF_SCRATCH_ROOT"]
     if _scratch_root is None:
-        _scratch_root = os.path.join(SCRATCH_BASE, "verif-%d" % os.getpid())
+        _scratch_root = os.path.join(SCRATCH_BASE, "verif-%07d" % os.getpid())
         os.environ["VERIF_SCRATCH_ROOT"] = _scratch_root
         shutil.rmtree(_scratch_root, ignore_errors=True)
         os.makedirs(_scratch_root)
